@@ -76,8 +76,13 @@ def rule_d(R, ctx):
                      "shrinks a client's block list" + ("" if root in SHRINK_OWNERS else " outside the squash functions"), cs.loc())
         for cs in fn.calls_to("re:^std::collections::HashMap::(remove|remove_entry|clear|drain|retain)$"):
             v = v or FnView(fn)
-            recv = v.arg(cs, 0)
-            if term_has_field(recv, "BlockStore.clients"):
+            recv = simp_deep(v.arg(cs, 0))
+            # the receiver must BE the store's client table (its access path ends in BlockStore.clients), not a local map that
+            # was merely computed from it (seed C02e was reported here for the wrong reason)
+            top = recv
+            while top[0] in ("ref", "deref") and len(top) > 1:
+                top = simp_deep(top[-1])
+            if top[0] == "field" and top[1].endswith("BlockStore.clients"):
                 R.ob("C06.d", fn, "remove-client:" + F.strip_generics(cs.name), False, "removes a client from the block store", cs.loc())
     R.floor("C06.d", "shrinking call sites on ClientBlockList.inner", n, 2)
     # squash_left drains only what it merged: drain is guarded by merged > 0
